@@ -107,3 +107,12 @@ def check(ctx):
             bad.append(f"array input: lookup_ = {A2.show(got_arr, 120)} (documented: identity on column positions)")
     ctx.ob("R15.4", rl.func, None, not bad, "lookup_ maps each column label of a DataFrame to its position (identity for arrays)"
            if not bad else "; ".join(bad), construct="lookup_ definition")
+    ctx.guard(_shared_c15, ctx)
+
+def _shared_c15(ctx):
+    """Life-cycle (history independence, pure prediction) and label-position clauses of the estimator(s) this property
+    is about, shared with C19 R19.3/R19.4 and C12 R12.1 and reported under this property's rule ids."""
+    from .c12 import label_sinks
+    from .c19 import lifecycle_of
+    ctx.rule("R15.5", "fit does not depend on state left by an earlier fit and prediction writes no state (shared with C19 R19.3 / R19.4)")
+    lifecycle_of(ctx, [CLS], {"R19.3": "R15.5", "R19.4": "R15.5"})
